@@ -250,14 +250,16 @@ fn check_wrap(case: &WrapCase, output: &str, ctx: &mut Ctx, via: &'static str) -
             )
         }
     };
-    if !case.styled {
+    // text without any escape sequence is plain text whichever wrapper it goes through
+    let plain_content = !case.text.contains('\u{1b}');
+    if !case.styled || plain_content {
         for line in output.split('\n') {
             let rt = line.trim_end_matches(' ');
             if ref_width(rt) > case.width {
                 let body = rt.trim_start_matches(' ');
                 if body.contains(' ') {
                     return Verdict::fail(
-                        "wrap:plain:width",
+                        if case.styled { "wrap:styled-plain-content:width" } else { "wrap:plain:width" },
                         format!(
                             "[{via}] text {:?} width {}: output line {:?} has width {} and holds more than one word",
                             case.text,
